@@ -165,6 +165,15 @@ class Builder:
         _run([v['cc']] + v['cflags'] + objs + self.lib(variant) + ['-o', out] + ld)
         return out
 
+    def fuzz_target(self, name, src):
+        """libFuzzer binary (clang): lib objects with fuzzer-no-link + ASan + memory-access UBSan subset, hooks on."""
+        v = VARIANTS['fuzz']
+        out = os.path.join(self.root, 'fuzz', 'fz_' + name)
+        hs = [os.path.join(HARNESS, src), os.path.join(HARNESS, 'verif_hooks.c')]
+        objs = self._compile_many('fuzz', hs, out + '.objs', self._defs())
+        _run([v['cc']] + objs + self.lib('fuzz') + ['-o', out] + list(v['ldflags']))
+        return out
+
     def shared(self, name, src, extra=()):
         """Repo-independent shared object (LD_PRELOAD monitors)."""
         out = os.path.join(self.root, name + '.so')
